@@ -10,11 +10,11 @@ CLAIMS = {
     'C05': dict(
         category='exploration', design_ref='DESIGN.md §3 C05, §2.4, §2.6',
         technique='deterministic simulation: seeded search over hash seeds (real child interpreters), salted in-process set/dict iteration orders, instance/call histories; reference model = brute-force derivation enumerator',
-        text='Seeded simulation of the nondeterminism the statement quantifies over (PYTHONHASHSEED of real child interpreters, salted Symbol/SymbolNode hashing that permutes every set/dict iteration order in-process, repeated calls, fresh and reordered instances, allocation noise): all nodes must return byte-identical canonical trees, and on a generated grammar class where shaped tree <-> derivation is a bijection the result must be a derivation with the optimal priority sum per an independent chart enumerator. Evidence over sampled grammars/orders, not proof.',
-        note='Trusts: the derivation enumerator (small, cross-checked against explicit-ambiguity counts), the restriction of the optimum clause to grammars without directly empty alternatives (as the statement says), inputs <= 8 symbols. setarch/ASLR is not controlled: id()-ordered containers are varied, not replayed.'),
+        text='Seeded simulation of the nondeterminism the statement quantifies over (PYTHONHASHSEED of real child interpreters, salted Symbol/SymbolNode hashing that permutes every set/dict iteration order in-process, repeated calls, fresh and reordered instances, allocation noise): all nodes must return byte-identical canonical trees, and on a generated grammar class where shaped tree <-> derivation is a bijection the result must be a derivation with the optimal priority sum per an independent chart enumerator; a second family has cycles of unit rules with admissible weights (optimum over the cycle-free derivations). Evidence over sampled grammars/orders, not proof.',
+        note='Trusts: the derivation enumerator (small, cross-checked against explicit-ambiguity counts), the restriction of the optimum clause to grammars without directly empty alternatives (as the statement says), inputs <= 8 symbols. setarch/ASLR is not controlled: id()-ordered containers are varied, not replayed. One open known finding: suboptimal results on cyclic unit-rule grammars (tallied inside the check, KNOWN_FINDINGS.txt).'),
     'C10': dict(
         category='exploration', design_ref='DESIGN.md §3 C10, §2.2',
-        technique='deterministic simulation: real threads under a seeded baton scheduler pre-empting at sys.settrace line events inside lark frames (random + PCT + burst strategies, intercepted locks, forced replay of recorded decisions), call histories with injected interrupts / callback failures / abandoned, closed, late-consumed and held-alive generators, worker pools under several PYTHONHASHSEEDs, salted LALR construction order; fresh-instance oracle',
+        technique='deterministic simulation: real threads under a seeded baton scheduler pre-empting at sys.settrace line events inside lark frames (random + PCT + burst strategies, intercepted locks, forced replay of recorded decisions), call histories with injected interrupts / callback failures / abandoned, closed, late-consumed and held-alive generators, worker pools under several PYTHONHASHSEEDs, salted LALR construction order, simulated addresses of input buffers, process-state reset between runs; fresh-instance oracle and pristine-process oracle',
         text='One shared Lark instance, 2-4 simulated caller threads whose interleaving a seeded scheduler decides at source-line granularity inside /repo/lark frames, plus single-thread call histories with faults (interrupt at the n-th line, failing callback, abandoned/closed generators) and other instances created meanwhile. Every completed call must equal the same call on a private fresh instance. Every failure replays from its recorded decision list. Samples schedules; a clean batch is evidence, not proof.',
         note='Pre-emption granularity is a source line inside lark frames (stdlib, re, pickle run atomically); races inside one line are invisible. Threads are real, only the choice of who runs is simulated. Corpus of ~17 grammar entries; texts <= 60 chars.'),
     'C11': dict(
@@ -24,7 +24,7 @@ CLAIMS = {
         note='Grammar and input space limited to the corpus (built to touch every serialised field) and its sentence generator; no faults injected here (damaged artefacts are C12).'),
     'C12': dict(
         category='fault_enumeration', design_ref='DESIGN.md §3 C12, §2.3',
-        technique='deterministic simulation with fault injection: histories of process lifetimes against a simulated file system/disk behind every seam lark.lark and lark.load_grammar can reach (FS.open, open, os, tempfile, sys): crash points with kill / power-loss aftermaths, short writes, errno per system call, path states (directory, read-only, unreadable), byte corruption, header-field damage, splices, version/option/import/base-directory skew, exceptions inside the load region, concurrent builders under the seeded scheduler; thorough tier enumerates truncation offsets, crash indices, failing FS calls and single-bit flips exhaustively for small entries',
+        technique='deterministic simulation with fault injection: histories of process lifetimes against a simulated file system/disk behind every seam lark.lark and lark.load_grammar can reach (FS.open, open, os, tempfile, sys): crash points with kill / power-loss aftermaths, short writes, errno per system call, path states (directory, read-only, unreadable), byte corruption, header-field damage, splices, version/option/import/base-directory skew, post-lexer / edit_terminals / keyword-order variation, packaged grammar libraries whose package is or is not imported yet, exceptions inside the load region, concurrent builders under the seeded scheduler; thorough tier enumerates truncation offsets, crash indices, failing FS calls and single-bit flips exhaustively for small entries',
         text='Histories of 2-8 process lifetimes running the real Lark(..., cache=...) against SimFS, faults placed inside operations; after every lifetime: constructor raised iff the uncached build raises, behaviour equals the uncached build, a hit only on bytes written completely for exactly this key, the file is repaired within one fault-free lifetime, no other path touched. Quick samples; thorough additionally enumerates every truncation offset, writer crash index, single failing FS call and single-bit flip for small corpus entries.',
         note='The disk is a model (deliberate superset of what ext4/xfs leave behind); atomicwrites branch not exercised (package absent); real OS processes racing on a real FS are not run.'),
     'C13': dict(
@@ -34,7 +34,7 @@ CLAIMS = {
         note='Linear replay on the same instance is taken as the specification of a fork; grammars/texts from the corpus and sentence generator; <= 40 steps, <= 12 sessions per history.'),
     'C18': dict(
         category='exploration', design_ref='DESIGN.md §3 C18, §2.6',
-        technique='deterministic simulation: seeded histories of streams through one long-lived Indenter (complete, abandoned and dropped or held alive, closed, thrown into, failing producer/consumer, DedentError, unbalanced brackets, sources without final line break) against an executable indentation model and CPython tokenize',
+        technique='deterministic simulation: seeded histories of streams through one long-lived Indenter (complete, abandoned and dropped or held alive, closed, thrown into, failing producer/consumer, DedentError, unbalanced brackets, sources without final line break, TextSlice inputs, streams created before the previous one is consumed) against an executable indentation model and CPython tokenize',
         text='One Indenter object reused for seeded histories of streams that end normally or abnormally (consumer stops, generator closed or thrown into, producer raises, DedentError, parser error mid-stream, open brackets/levels at EOF), driven directly, through Lark(postlex=...) and through PythonIndenter + python.lark; every stream in the history must produce exactly the tokens of an independent model for that stream alone, balanced INDENT/DEDENT, DedentError exactly when the model says, nesting equal to CPython tokenize.',
         note='Model written from the statement (25 lines) and cross-checked against CPython tokenize on a generator restricted to pure-space or pure-tab indentation; <= 12 lines per stream.'),
 }
@@ -80,7 +80,7 @@ def main():
                      'kind_free_text': 'hand-written deterministic simulator in Python: seeded plan generation, baton-passing thread scheduler on sys.settrace, simulated file system, process nodes with chosen hash seeds, reference models, ddmin minimisation, replay files'}],
         'checks': checks,
         'not_applicable': na,
-        'notes': 'Technique family: deterministic simulation with fault injection. Exit codes: 0 held, 1 VIOLATION, 2 HARNESS-ERROR (never a verdict). Known findings: KNOWN_FINDINGS.txt. Seeded breaking changes used to test the checks: seeded/.',
+        'notes': 'Technique family: deterministic simulation with fault injection. Exit codes: 0 held, 1 VIOLATION, 2 HARNESS-ERROR (never a verdict). Known findings: KNOWN_FINDINGS.txt (fixed: lines for the 18 repaired defects, open: lines for 4 that are printed as KNOWN-FINDING and exit 0). Seeded breaking changes used to test the checks: seeded/.',
     }
     path = os.path.join(VERIF, 'MANIFEST.json')
     with open(path, 'w') as f:
